@@ -364,6 +364,12 @@ theorem checkProd_complete (gid : Nat) {es : List Item} {got : List Got} (h : Co
     checkProd gid es got = .pass :=
   PB.Log.checkProd_complete gid h
 
+/-- The line-by-line reading of "messages below the level in force are never emitted" that `checkRun` applies
+    first (it names the offending line instead of the place where the walk along the items gets stuck) rejects
+    nothing the specification allows. -/
+theorem filtered_precheck_complete {es : List Item} {got : List Got} (h : Conforms es got) :
+    ∀ g ∈ got, neverAllowed es g = false := conforms_line_allowed h
+
 /-- The exact decision procedure behind it. -/
 theorem conformsB_iff (es : List Item) (got : List Got) : conformsB es got = true ↔ Conforms es got :=
   PB.Log.conformsB_iff es got
@@ -704,9 +710,9 @@ example : lookupLevel "warning" = 4 ∧ lookupLevel "warn" = 0 ∧ lookupLevel "
 
 /-- The run checker: a conforming output passes, a lost / duplicated / filtered / reordered one fails. -/
 def exps0 : Nat → List Item := fun g =>
-  if g = 0 then [⟨1, 3, 0, .plain, [⟨some ⟨3, false, []⟩, true, 2⟩], []⟩,
-                 ⟨2, 2, 0, .plain, [⟨some ⟨3, false, []⟩, true, 1⟩], []⟩,
-                 ⟨3, 4, 0, .tracer, [⟨some ⟨3, false, []⟩, true, 1⟩], [7, 8]⟩] else []
+  if g = 0 then [⟨1, 3, 0, .plain, [⟨some ⟨3, false, []⟩, true, 2⟩], [], 3⟩,
+                 ⟨2, 2, 0, .plain, [⟨some ⟨3, false, []⟩, true, 1⟩], [], 2⟩,
+                 ⟨3, 4, 0, .tracer, [⟨some ⟨3, false, []⟩, true, 1⟩], [7, 8], 4⟩] else []
 example : checkRun 1 exps0 [⟨0, 1, 1, none⟩, ⟨0, 3, 0, some [7, 8]⟩] = .pass := by decide
 example : checkRun 1 exps0 [⟨0, 1, 0, none⟩, ⟨0, 3, 0, some [7, 8]⟩] = .fail "lost" 0 1 := by decide
 example : checkRun 1 exps0 [⟨0, 1, 2, none⟩, ⟨0, 3, 0, some [7, 8]⟩] = .fail "duplicated" 0 1 := by decide
@@ -716,10 +722,10 @@ example : checkRun 1 exps0 [⟨0, 1, 1, none⟩, ⟨0, 3, 0, some [7]⟩] = .fai
 /-- A plain line, then a submission and a second plain call of the same text (item ids 1 / 5 differ in the
     tracer bit only in the harness; here: distinct ids), submissions with different collected lines. -/
 def exps1 : Nat → List Item := fun g =>
-  if g = 0 then [⟨1, 3, 0, .plain, [⟨some ⟨3, false, []⟩, true, 1⟩], []⟩,
-                 ⟨5, 3, 0, .tracer, [⟨some ⟨3, false, []⟩, true, 1⟩], []⟩,
-                 ⟨5, 3, 0, .tracer, [⟨some ⟨3, false, []⟩, true, 2⟩], [7]⟩,
-                 ⟨1, 3, 0, .plain, [⟨some ⟨3, false, []⟩, true, 1⟩], []⟩] else []
+  if g = 0 then [⟨1, 3, 0, .plain, [⟨some ⟨3, false, []⟩, true, 1⟩], [], 3⟩,
+                 ⟨5, 3, 0, .tracer, [⟨some ⟨3, false, []⟩, true, 1⟩], [], 3⟩,
+                 ⟨5, 3, 0, .tracer, [⟨some ⟨3, false, []⟩, true, 2⟩], [7], 3⟩,
+                 ⟨1, 3, 0, .plain, [⟨some ⟨3, false, []⟩, true, 1⟩], [], 3⟩] else []
 example : checkRun 1 exps1 [⟨0, 1, 0, none⟩, ⟨0, 5, 0, some []⟩, ⟨0, 5, 0, some [7]⟩, ⟨0, 5, 0, some [7]⟩, ⟨0, 1, 0, none⟩] = .pass := by decide
 /-- the submission swallowed by the preceding plain line (`duplicates = 1`) -/
 example : checkRun 1 exps1 [⟨0, 1, 1, none⟩, ⟨0, 5, 0, some [7]⟩, ⟨0, 5, 0, some [7]⟩, ⟨0, 1, 0, none⟩] = .fail "tracer-lost" 0 5 := by decide
@@ -727,17 +733,32 @@ example : checkRun 1 exps1 [⟨0, 1, 1, none⟩, ⟨0, 5, 0, some [7]⟩, ⟨0, 
 example : checkRun 1 exps1 [⟨0, 1, 0, none⟩, ⟨0, 5, 0, some []⟩, ⟨0, 5, 1, some [7]⟩, ⟨0, 1, 0, none⟩] = .fail "trace" 0 5 := by decide
 /-- a submission that arrives with other entries than it collected, while nothing has to arrive (Shutdown
     requested during the call): still not accepted -/
-example : checkRun 1 (fun _ => [⟨5, 3, 0, .tracer, [⟨some ⟨3, false, []⟩, false, 1⟩], [7]⟩]) [⟨0, 5, 0, some [8]⟩] =
+example : checkRun 1 (fun _ => [⟨5, 3, 0, .tracer, [⟨some ⟨3, false, []⟩, false, 1⟩], [7], 3⟩]) [⟨0, 5, 0, some [8]⟩] =
     .fail "unexpected" 0 5 := by decide
-example : checkRun 1 (fun _ => [⟨5, 3, 0, .tracer, [⟨some ⟨3, false, []⟩, false, 1⟩], [7]⟩]) [] = .pass := by decide
+example : checkRun 1 (fun _ => [⟨5, 3, 0, .tracer, [⟨some ⟨3, false, []⟩, false, 1⟩], [7], 3⟩]) [] = .pass := by decide
+/-- A submission whose tracer lived (from `AddTracer` to `Submit`) under ONE configuration in which a line it
+    carries is below the level in force for its origin — package levels active, origin 0 not listed, global
+    level info, a Debug line among the collected ones — must not reach the adapter; with the origin listed at
+    trace it must; when the configuration changed during the tracer's life nothing is demanded either way. -/
+def exps3 (c : Option Levels) : Nat → List Item := fun _ => [⟨5, 4, 0, .tracer, [⟨c, true, 1⟩], [58], 2⟩]
+example : checkRun 1 (exps3 (some ⟨3, true, [(1, 1)]⟩)) [⟨0, 5, 0, some [58]⟩] = .fail "filtered" 0 5 := by decide
+example : checkRun 1 (exps3 (some ⟨3, true, [(1, 1)]⟩)) [] = .pass := by decide
+example : checkRun 1 (exps3 (some ⟨3, true, [(0, 1)]⟩)) [⟨0, 5, 0, some [58]⟩] = .pass := by decide
+example : checkRun 1 (exps3 (some ⟨3, true, [(0, 1)]⟩)) [] = .fail "tracer-lost" 0 5 := by decide
+example : checkRun 1 (exps3 (some ⟨2, true, [(1, 1)]⟩)) [⟨0, 5, 0, some [58]⟩] = .pass := by decide
+example : checkRun 1 (exps3 none) [⟨0, 5, 0, some [58]⟩] = .pass ∧ checkRun 1 (exps3 none) [] = .pass := by decide
 /-- `A B A` with `B` below the level in force: the two `A` lines arrive next to each other (and may have
     been merged); the greedy walk alone would call the second one a duplicate. -/
 def exps2 : Nat → List Item := fun _ =>
-  [⟨1, 3, 0, .plain, [⟨some ⟨3, false, []⟩, true, 1⟩], []⟩, ⟨2, 2, 0, .plain, [⟨some ⟨3, false, []⟩, true, 1⟩], []⟩,
-   ⟨1, 3, 0, .plain, [⟨some ⟨3, false, []⟩, true, 1⟩], []⟩]
+  [⟨1, 3, 0, .plain, [⟨some ⟨3, false, []⟩, true, 1⟩], [], 3⟩, ⟨2, 2, 0, .plain, [⟨some ⟨3, false, []⟩, true, 1⟩], [], 2⟩,
+   ⟨1, 3, 0, .plain, [⟨some ⟨3, false, []⟩, true, 1⟩], [], 3⟩]
 example : greedyProd 0 (exps2 0) [⟨1, none⟩, ⟨1, none⟩] = .fail "duplicated" 0 1 := by decide
 example : checkRun 1 exps2 [⟨0, 1, 1, none⟩] = .pass := by decide
 example : checkRun 1 exps2 [⟨0, 1, 2, none⟩] = .fail "duplicated" 0 1 := by decide
 example : checkRun 1 exps2 [⟨0, 1, 0, none⟩] = .fail "lost" 0 1 := by decide
+/-- A submission that must not be emitted is named as such also when the walk along the items would get stuck earlier, at a legitimate `A A`
+    (`A B A` with `B` disabled). -/
+example : checkRun 1 (fun g => exps2 g ++ exps3 (some ⟨3, true, [(1, 1)]⟩) g) [⟨0, 1, 1, none⟩, ⟨0, 5, 0, some [58]⟩] =
+    .fail "filtered" 0 5 := by decide
 
 end PB.C20
